@@ -625,8 +625,12 @@ def c02(rep, tier):
         if f['tmpl'] not in ('none', 'inst'):
             continue
         for e in walk_all_exprs(f['body']):
+            if e.get('k') == 'construct' and e.get('rec') in ERR_RECS and len(e.get('args', [])) >= 3:
+                # SyntaxError(line, file, msg) with a constructor that stores its arguments unchanged: read as the aggregate it replaces
+                from .genrules import as_record_init
+                e = as_record_init(lib, e) or e
             if e.get('k') == 'init' and e.get('rec') in ERR_RECS:
-                flds = dict(e['fields'])
+                flds = dict((a_, b_) for a_, b_ in e['fields'])
                 msg = flds.get('msg') or flds.get('message')
                 file_e, line_e = flds.get('file'), flds.get('line')
                 inst = '%s: %s{%s}' % (f['q'], e['rec'].split('::')[-1], show(msg)[:50])
